@@ -173,7 +173,7 @@ def obligations(tier):
     covers = ["done", "some-destination-failed", "failure-and-success-in-one-pass"]
 
     def add(name, NP, P, model, labelling, prefix, budget):
-        out.append(Ob(name, h, dict(NP=NP, P=P, model=model, labelling=labelling, prefix=prefix), budget=budget,
+        out.append(Ob(name, h, dict(NP=NP, P=P, model=model, labelling=labelling, prefix=prefix), hang_s=240, budget=budget,
                       covers=covers,
                       bounds=dict(packets=NP, destinations=3, failing_passes=P, failure_model=model,
                                   labelling=labelling, fixed_prefix=prefix, clean_passes="<= packets")))
